@@ -3,6 +3,7 @@
 -/
 import BioCantor.Proofs.TblQuals
 import BioCantor.Proofs.TblRows
+import BioCantor.Proofs.TblCDS
 namespace BioCantor.Proofs.Tbl
 open BioCantor BioCantor.Model.Tbl BioCantor.Spec BioCantor.Spec.Tbl
 open BioCantor.Model.Bed (natStr intStr join)
@@ -52,7 +53,8 @@ theorem feature_clauses (pre : List Char) (hpre : plainChars pre) (f : Feature) 
   unfold okFeat
   simp only [Bool.and_eq_true]
   refine ⟨⟨⟨⟨⟨hkey, ?_⟩, ?_⟩, ?_⟩, ?_⟩, ?_⟩
-  · simp only [okRowsMerged, featOf, List.any_cons, List.any_nil, Bool.or_false, hrows, hblocks]
+  · rw [hblocks] at hrows
+    simp only [okRowsMerged, featOf, List.any_cons, List.any_nil, Bool.or_false, hblocks, hrows]
     simp
   · simp only [okMarks, featOf, m1, m2, m3]
     simp
@@ -73,5 +75,39 @@ theorem feature_clauses (pre : List Char) (hpre : plainChars pre) (f : Feature) 
     rw [qualValues_featOf f "locus_tag" (validKeys_locus_tag f.key) (by decide), printedValues_single _ _ _ hlt,
       removeChars_id _ (tag_plain pre hpre tagNo)]
     simp [tagNumber_tag]
+
+/-! ### pseudo: any transcript -/
+
+/-- `any(tx.has_in_frame_stop for tx in gene.transcripts)` over coding transcripts whose predicate answers -/
+theorem anyInFrameStop_any (cbs : List (Model.CDS × Bool)) (h : ∀ p ∈ cbs, Model.hasInFrameStop p.1 = .ok p.2) :
+    anyInFrameStop (cbs.map (fun p => some p.1)) = .ok ((cbs.map (·.2)).any id) := by
+  induction cbs with
+  | nil => rfl
+  | cons p cbs ih =>
+    have ih' := ih (fun q hq => h q (List.mem_cons_of_mem _ hq))
+    have hp := h p (by simp)
+    simp only [List.map_cons, anyInFrameStop, hp, bind, Except.bind, List.any_cons, id]
+    cases p.2
+    · simpa using ih'
+    · simp [pure, Except.pure]
+
+/-! ### the reading-frame clauses do not depend on merging -/
+
+theorem cdsIn_merged_letters (src : List Blk) (st : Strand) (f : Nat) (g : List Char) (h : goodBlocks src = true) :
+    (⟨mergedBlocks src, st, f, g⟩ : CdsIn).letters = (⟨src, st, f, g⟩ : CdsIn).letters := by
+  unfold CdsIn.letters
+  simp only [merged_same_bases src st h]
+
+theorem cdsIn_merged (src : List Blk) (st : Strand) (f : Nat) (g : List Char) (h : goodBlocks src = true) (table : Nat) :
+    (⟨mergedBlocks src, st, f, g⟩ : CdsIn).startPartial table = (⟨src, st, f, g⟩ : CdsIn).startPartial table ∧
+    (⟨mergedBlocks src, st, f, g⟩ : CdsIn).endPartial = (⟨src, st, f, g⟩ : CdsIn).endPartial ∧
+    (⟨mergedBlocks src, st, f, g⟩ : CdsIn).inFrameStop = (⟨src, st, f, g⟩ : CdsIn).inFrameStop := by
+  have hl := cdsIn_merged_letters src st f g h
+  have hc : (⟨mergedBlocks src, st, f, g⟩ : CdsIn).codons = (⟨src, st, f, g⟩ : CdsIn).codons := by
+    unfold CdsIn.codons; rw [hl]
+  refine ⟨?_, ?_, ?_⟩
+  · unfold CdsIn.startPartial; rw [hc]
+  · unfold CdsIn.endPartial CdsIn.endsOnStop; rw [hl, hc]
+  · unfold CdsIn.inFrameStop; rw [hc]
 
 end BioCantor.Proofs.Tbl
